@@ -12,7 +12,7 @@ use serde_json::{json, Value};
 pub static DEF: PropDef = PropDef {
     id: "C10",
     level: "exploration",
-    rule: "random room histories built through the mutation API by an admin and by a user admin on another instance (several entries per key: enabled, disabled, re-enabled; rights replaced over time; all-rows without own-rows; several groups and admins; dates spread over days). After every step the decision matrix (admin, member, user admin per group, own/all per entity, for every key and every entry date +-1) is read from: the live room, a restart of the instance on the same folder, a fresh instance that pulls the room, an instance that held an earlier version and pulls again, and a restart of the importer; every matrix must equal the one of the independent rights model, and start() must succeed. non-trivial = a key with at least two entries at distinct dates and a right replaced; distinct = canonical edit-kind sequence",
+    rule: "random room histories built through the mutation API by an admin and by a user admin on another instance (several entries per key: enabled, disabled, re-enabled; rights replaced over time; all-rows without own-rows; several groups and admins; dates spread over days). After every step the decision matrix (admin, member, user admin per group, own/all per entity, for every key and every entry date +-1) is read from: the live room, a restart of the instance on the same folder, a fresh instance that pulls the room, an instance that held an earlier version and pulls again, and a restart of the importer; every matrix must equal the one of the independent rights model, and start() must succeed. non-trivial = a key with at least two entries at distinct dates and a right replaced; distinct = canonical edit-kind sequence A lagging importer pulls only now and then (several versions behind); the second instance is often appointed admin and then authors admin-only edits.",
     assumptions: &[
         "restart = a second start() of the library on the same data folder in the same process (the first instance stays idle); imports go through the library's synchronise_room over in-memory channels",
     ],
